@@ -198,7 +198,7 @@ def main():
     # --------------------------------------------------------------------------
     jobs = []
     for ob in obls:
-        for shape in ob.shapes.get(tier) or ob.shapes.get('quick') or [{}]:
+        for shape in (ob.shapes[tier] if tier in ob.shapes else [{}]):
             base = {'module': ob.module, 'name': ob.name, 'shape': shape,
                     'gen_dir': gen_dir,
                     'path_timeout': ob.path_timeout,
